@@ -79,10 +79,11 @@ def callStr (c : Nat × Parser) : String := s!"{c.1}:{hexOpt c.2.method}:{hexOpt
 def pipeObs (ph : WPhase) (p : Option Parser) : String :=
   if ph == .first || ph == .routed then pipeStr p else "-"
 
-def wStr (s : WSt) : String :=
+def wStr (st : WSt × Option Parser) : String :=
+  let s := st.1
   if s.phase == .other then "ph=other" else
   s!"ph={wphaseStr s.phase} rq={s.request.state.num}/{bufOptStr s.request.buffer} route={natOptStr s.route} " ++
-  s!"pipe={pipeObs s.phase s.pipe} calls=[{",".intercalate (s.calls.map callStr)}] out={Relay.bufStr s.out}"
+  s!"pipe={pipeObs s.phase st.2} calls=[{",".intercalate (s.calls.map callStr)}] out={Relay.bufStr s.out}"
 
 def parseREv (s : String) : Option REv :=
   match s.toList with
@@ -94,10 +95,11 @@ def parseREv (s : String) : Option REv :=
     | _ => none
   | _ => none
 
-def rStr (s : RSt) : String :=
+def rStr (st : RSt × Option Parser) : String :=
+  let s := st.1
   let cs := ",".intercalate (s.rv.connects.map Px.Reverse.addrStr)
   if s.phase == .other then "ph=other" else
-  s!"ph={wphaseStr s.phase} rq={s.request.state.num}/{bufOptStr s.request.buffer} pipe={pipeObs s.phase s.pipe} " ++
+  s!"ph={wphaseStr s.phase} rq={s.request.state.num}/{bufOptStr s.request.buffer} pipe={pipeObs s.phase st.2} " ++
   s!"handled={s.handled} connects=[{cs}] cur={natOptStr s.current} up={Px.Reverse.connStr s.rv.upstream} " ++
   s!"wrote={Px.Reverse.hexList s.wrote} client={Relay.bufStr s.rv.client.buffer}"
 
@@ -117,13 +119,13 @@ def drv (args : List String) : String :=
     match parseRoutes routes, parseMatch mt, unhexAll segs with
     | some rs, some m, some segs =>
       let cfg : WCfg := { routes := rs, matchPat := m, respond := recResp }
-      wStr (wrun cfg {} segs)
+      wStr (wrun cfg ({}, none) segs)
     | _, _, _ => "bad-op"
   | "rev" :: rw :: table :: mt :: evs =>
     match Px.Reverse.parseTable table, parseMatch mt, evs.mapM parseREv with
     | some t, some m, some evs =>
       let cfg : RCfg := { rv := { rewriteHost := rw == "1" }, table := t, matchPat := m }
-      rStr (rrun cfg {} evs)
+      rStr (rrun cfg ({}, none) evs)
     | _, _, _ => "bad-op"
   | _ => "bad-op"
 
